@@ -9,6 +9,7 @@ SCRATCH = os.path.join(ROOT, '.scratch')
 FORBIDDEN = re.compile(r'\b(Admitted|admit|Axiom|Axioms|Parameter|Parameters|Conjecture|Conjectures|'
                        r'Hypothesis|Hypotheses|Variable|Variables|Admit Obligations)\b|Unset Guard|'
                        r'bypass_check|type-in-type|impredicative-set|Unset Universe|Unset Positivity')
+STRANGER = re.compile(r'Admitted|admit|Axiom|Parameter|Conjecture|Unset Guard|bypass_check')
 # axioms of the standard library that a theorem may depend on (named in the trusted base when used)
 STDLIB_AXIOMS = ('functional_extensionality_dep', 'classic', 'proof_irrelevance', 'JMeq_eq',
                  'Eqdep.Eq_rect_eq.eq_rect_eq', 'propositional_extensionality')
@@ -215,6 +216,10 @@ def scan_forbidden():
                     in_section += 1
                 if re.match(r'\s*End\b', code) and in_section:
                     in_section -= 1
+                # what a stranger's grep would hit, comments included: keep the development free of it
+                if STRANGER.search(line):
+                    hits.append('%s:%d: %s' % (os.path.relpath(p, COQ), i, line.strip()[:100]))
+                    continue
                 m = FORBIDDEN.search(code)
                 if m:
                     if m.group(1) in ('Hypothesis', 'Hypotheses', 'Variable', 'Variables') and in_section:
